@@ -507,6 +507,110 @@ func VerifC04_RegexValidation() {
 	}
 }
 
+// ---- O6b: allowed values: a set (or a whole-layer replace) accepts a value of
+// an option with possible values iff it is one of them - for every option
+// type, with an explicit validation pattern that is looser than the list, and
+// for nil (JSON null) ----
+
+func VerifC04_PossibleValues() {
+	c04Reset()
+	kind := rt.Choice("kind", 3) // string, int, string list
+	var o *Option
+	prev := &valueCache{stringVal: "p", intVal: 99, stringArrayVal: []string{"p"}}
+	switch kind {
+	case 0:
+		o = addOption("k", OptTypeString, ReleaseLevelStable, &valueCache{})
+		o.PossibleValues = []PossibleValue{{Name: "A", Value: "aa"}, {Name: "B", Value: "b"}}
+	case 1:
+		o = addOption("k", OptTypeInt, ReleaseLevelStable, &valueCache{})
+		o.PossibleValues = []PossibleValue{{Name: "one", Value: 1}, {Name: "seven", Value: 7}}
+	case 2:
+		o = addOption("k", OptTypeStringArray, ReleaseLevelStable, &valueCache{})
+		o.PossibleValues = []PossibleValue{{Name: "A", Value: "aa"}, {Name: "B", Value: "b"}}
+	}
+	// the validation pattern: derived from the list (as Register does), or an
+	// explicit one that admits more than the list
+	if rt.Bool("explicit-looser-pattern") {
+		o.compiledRegex = regexp.MustCompile(`^[a-z0-9]+$`)
+	} else if kind == 1 {
+		o.compiledRegex = regexp.MustCompile(`^(1|7)$`)
+	} else {
+		o.compiledRegex = regexp.MustCompile(`^(aa|b)$`)
+	}
+	o.activeValue = prev
+
+	var v interface{}
+	allowed := false
+	switch rt.Choice("value", 4) {
+	case 0: // a string
+		str := rt.StrN("s", 0, 2)
+		for i := 0; i < len(str); i++ {
+			rt.Assume(str[i] < 0x80)
+		}
+		v = str
+		allowed = kind == 0 && (str == "aa" || str == "b")
+	case 1: // an integer, as int64 or as the float64 a JSON document yields
+		n := []int64{0, 1, 7, 8}[rt.Choice("n", 4)]
+		if rt.Bool("as-json-number") {
+			v = float64(n)
+		} else {
+			v = n
+		}
+		allowed = kind == 1 && (n == 1 || n == 7)
+	case 2: // a string list
+		cnt := rt.Len("entries", 0, 2)
+		list := []string{}
+		ok := true
+		for i := 0; i < cnt; i++ {
+			e := rt.StrN("e"+string(rune('0'+i)), 0, 2)
+			for j := 0; j < len(e); j++ {
+				rt.Assume(e[j] < 0x80)
+			}
+			list = append(list, e)
+			ok = ok && (e == "aa" || e == "b")
+		}
+		if rt.Bool("as-interfaces") {
+			iv := []interface{}{}
+			for _, e := range list {
+				iv = append(iv, e)
+			}
+			v = iv
+		} else {
+			v = list
+		}
+		allowed = kind == 2 && ok
+	case 3: // JSON null in a configuration file
+		v = nil
+	}
+	if rt.Bool("replace") {
+		// whole-layer replace: the entry is installed or reported
+		verrs, _ := ReplaceConfig(map[string]interface{}{"k": v})
+		if v == nil {
+			// JSON null: reported as invalid or taken as "no value" - not a crash
+			rt.Assert(o.activeValue == nil, "possible/null-entry-installs-nothing")
+			rt.Reach("possible-null-in-replace")
+			return
+		}
+		rt.Assert((len(verrs) == 0) == allowed, "possible/replace-installs-iff-allowed")
+		rt.Assert((o.activeValue != nil) == allowed, "possible/replace-installs-exactly-the-valid-entry")
+		rt.Reach("possible-replace")
+		return
+	}
+	err := setConfigOption("k", v, false)
+	if v == nil {
+		// setting nil clears the user value: not a validation case
+		rt.Reach("possible-nil-clears")
+		return
+	}
+	rt.Assert((err == nil) == allowed, "possible/accepted-iff-allowed")
+	if err != nil {
+		rt.Assert(o.activeValue == prev, "possible/refused-leaves-option-unchanged")
+		rt.Reach("possible-refused")
+	} else {
+		rt.Reach("possible-accepted")
+	}
+}
+
 // ---- O7: saving the configuration and loading it again restores exactly the
 // same user-set values ----
 
